@@ -5,6 +5,8 @@ import SpoxModel.Lemmas.Attr
 
 Property theorems only.  Part 1: the encoding (`from_array` → typed-field TensorProto → `to_array`).
 -/
+set_option linter.unusedSimpArgs false  -- one simp set serves all 16 dtype / 11 class cases
+
 namespace C10
 open Tensor Generated.TensorEnum
 
